@@ -299,6 +299,7 @@ def c10_state(l3, machine, sidx, alloc, L, stats, timeout_ms=30000):
     ms = 60 * (n + 4) * L
     sx = {'queries': 0, 'solver_time': 0.0}
     key = f"{getattr(l3, 'label', '?')}@{sidx}/L{L}/{stepcmp._amask(alloc)}"
+    machine.null_strs = tuple(n for n, v in (alloc or {}).items() if not v)
     try:
         apaths = symx.explore(abs_run(machine, l3, st, data, bs), solver, assumptions=inv, stats=sx, max_paths=4000)
     except absm.Unsupported as e:
